@@ -44,15 +44,16 @@ func c07Build(tier string) []c07Case {
 	seen := map[string]bool{}
 	for _, e := range zooList {
 		if tier != "thorough" {
-			// one entry per package type and data-type family: key = kind + type part of the name
-			key := e.Kind
+			// every non-data entry up to 300 bytes; for the data kinds one entry per data-type family
 			if e.Kind == "ROW" || e.Kind == "PARAMS" || e.Kind == "ROWFMT2" || e.Kind == "PARAMFMT" || e.Kind == "PARAMFMT2" {
-				key = e.Kind + "/" + typeFamily(e.Name)
-			}
-			if seen[key] || len(e.Bytes) > 200 {
+				key := e.Kind + "/" + typeFamily(e.Name)
+				if seen[key] || len(e.Bytes) > 200 {
+					continue
+				}
+				seen[key] = true
+			} else if len(e.Bytes) > 300 {
 				continue
 			}
-			seen[key] = true
 		}
 		for k := 1; k < len(e.Bytes); k++ {
 			cs = append(cs, c07Case{e.Name, k})
@@ -96,7 +97,7 @@ func (c07) NRuns(tier string) int {
 	return len(c07Build(tier))
 }
 func (c07) Rule() string {
-	return "enumeration: for every zoo package E (quick: one per package type and data-type family up to 200 bytes; thorough: the whole zoo) and EVERY proper prefix length k in 1..|E|-1, the context format plus E[:k] arrives as a packet without end-of-message, the channel is polled after quiescence, then E[k:] arrives with end-of-message and the channel is polled again; compared with the context alone and with the unfragmented response; non-trivial = 0<k<|E|; distinct = distinct (entry, k); exhaustive over k per entry set"
+	return "enumeration: for every zoo package E (quick: every non-data package up to 300 bytes plus one data package per data-type family; thorough: the whole zoo, each case under read sizes all/1..7) and EVERY proper prefix length k in 1..|E|-1, the context format plus E[:k] arrives as a packet without end-of-message, the channel is polled after quiescence, then E[k:] arrives with end-of-message and the channel is polled again; compared with the context alone and with the unfragmented response; non-trivial = 0<k<|E|; distinct = distinct (entry, k); exhaustive over k per entry set"
 }
 func (c07) Components() map[string]string {
 	return map[string]string{"tds (reader goroutine, Channel retry/rollback loop, PacketQueue, package and field parsers)": "real (rewritten)", "transport": "stub: simrt.Conn, second part delayed by simulated time", "server": "stub: sim/peer zoo encoders", "clock/contexts": "simulated"}
@@ -148,7 +149,7 @@ func (c07) Run(plan interface{}, schedSeed uint64, replay []simrt.Choice, lenien
 	full := append(append([]byte{}, ctx...), e.Bytes...)
 	cfg0 := simrt.Config{Seed: schedSeed, Strategy: "uniform", ColdQueueLocks: true}
 	polls := []time.Duration{500 * time.Millisecond, 1500 * time.Millisecond}
-	cl := respClient{QueueSize: 100, ReadTimeoutS: 50, PollAt: polls, DrainFor: 20 * time.Second}
+	cl := respClient{QueueSize: 100, ReadTimeoutS: 50, PollAt: polls, DrainFor: 20 * time.Second, Hooks: true}
 
 	// baseline: everything in one packet with end-of-message
 	base := runResp(cfg0, respDelivery{Packets: peer.Packetise(full, nil, peer.BufResponse, 0, true), TermAt: -1}, cl)
